@@ -418,6 +418,9 @@ fn judge(c: &Cfg, spec: &CmdSpec, cmd: &clap::Command, seq: &[Tok], h: &mut Hist
                 Rel::ORequiresZ if only_default && e.kind == "MissingRequiredArgument" => {
                     bad.push(("a default value triggered a requirement".into(), e.rendered.lines().next().unwrap_or("").to_string()));
                 }
+                Rel::ArgRequiredElseHelp if seq.is_empty() && env_set && e.kind == "DisplayHelpOnMissingArgumentOrSubcommand" => {
+                    bad.push(("an environment-supplied argument did not count as present for arg_required_else_help".into(), String::new()));
+                }
                 Rel::IgnoreErrors => {
                     if e.kind != "DisplayHelp" && e.kind != "DisplayVersion" {
                         bad.push(("error-ignoring parse failed".into(), e.kind.clone()));
